@@ -253,8 +253,18 @@ ListOf(n) == Node("list", "", <<>>, [i \in 1..n |-> Seven])
 LitCases == {[t |-> p \o <<l>>, c |-> "lit", r |-> "write_lit", w |-> LitWrap(p, x)] : p \in LitPrefixes, l \in LitLeaves, x \in LitScalars}
             \cup {[t |-> <<a, l>>, c |-> "lit", r |-> "write_lit", w |-> ListOf(n)] : a \in {"arr1", "arr2"}, l \in {"int", "uint8", "MyInt"}, n \in 0..3}
 
-AllCases(depth, mdepth) == CasesOf(Types(depth), mdepth) \cup UnsupportedCases \cup LitCases
-ShardCases(depth, mdepth, k, n) == CasesOf(ShardTypes(depth, k, n), mdepth) \cup (IF k = 0 THEN UnsupportedCases \cup LitCases ELSE {})
+
+\* The pre-declared named struct Rec{A string; B int64} with value- and pointer-receiver methods over named types:
+\*   [r.Scale(d, 3), r.Tag("x"), r.Both(1.5, true), r.SetB(41) then r.B]   with r = Rec{"tag", 7}, d = Duration typ
+\* handed to the script as a pointer (rec_methods: SetB is visible in Go) or as a struct value (rec_methods_val:
+\* the script works on its own copy, Go keeps B = 7).
+RecCases == {[t |-> <<"Rec">>, c |-> "typ", r |-> r, w |-> NoLit] : r \in {"rec_methods", "rec_methods_val"}}
+RecScript == Node("list", "", <<>>, <<Leaf("int", "12727272726"), Leaf("str", "tagx"), Leaf("float", "3"), Leaf("int", "41")>>)
+RecBack(r) == Node("struct", "", <<"A", "B">>, <<Leaf("str", "tag"), Leaf("int", IF r = "rec_methods" THEN "41" ELSE "7")>>)
+
+FixedCases == UnsupportedCases \cup LitCases \cup RecCases
+AllCases(depth, mdepth) == CasesOf(Types(depth), mdepth) \cup FixedCases
+ShardCases(depth, mdepth, k, n) == CasesOf(ShardTypes(depth, k, n), mdepth) \cup (IF k = 0 THEN FixedCases ELSE {})
 
 -----------------------------------------------------------------------------
 (* LAWS (leg M): checked by TLC for every (t, c) of the algebra *)
